@@ -212,10 +212,10 @@ func errText(err error) string {
 // ---- sequential histories
 
 type op struct {
-	Op    string   `json:"op"`    // top | new | random | nest | open | add | set | destroy
+	Op    string   `json:"op"`    // top | mk | new | random | nest | open | add | set | destroy
 	H     int      `json:"h"`     // handle index (0 = the base handle)
 	Name  string   `json:"name"`  // new / nest: child name
-	Names []string `json:"names"` // random: names forced in turn
+	Names []string `json:"names"` // random: names forced in turn; mk: hierarchies
 	Path  []string `json:"path"`  // open: path relative to the base
 	Pid   string   `json:"pid"`   // add: p1 | p2
 	Kind  string   `json:"kind"`  // set: pids | mem | cpu
@@ -359,7 +359,7 @@ func runCase(c kase, nonce string) (tr *trace, err error) {
 			ev.Path = []string{}
 		}
 		var h cgroup.Cgroup
-		if o.Op != "top" && o.Op != "open" {
+		if o.Op != "top" && o.Op != "open" && o.Op != "mk" {
 			if o.H < 1 || o.H >= len(handles) {
 				// an earlier call did not return the handle the history counts on (that call's
 				// event is already on record): the rest of the history cannot be performed
@@ -368,6 +368,13 @@ func runCase(c kase, nonce string) (tr *trace, err error) {
 			h = handles[o.H]
 		}
 		switch o.Op {
+		case "mk":
+			// an administrator makes the group directory in some hierarchies, outside the library
+			for _, ctl := range o.Names {
+				if err := os.Mkdir(filepath.Join(append([]string{l.root(ctl)}, o.Path...)...), 0755); err != nil {
+					ev.Err, ev.Errs = true, err.Error()
+				}
+			}
 		case "top":
 			cg, err := cgroup.New(l.apiPrefix(), l.controllers())
 			created(&ev, cg, err)
